@@ -215,6 +215,15 @@ def check(cx):
             for sub in subterms(t0):
                 if sub[0] in ('sel', 'selv') and dir_class(sub[1], x, L) in ('lt', 'le', 'gt', 'ge') and sub[1] not in cands:
                     cands.append(sub[1])
+        if not cands:
+            # the split may sit inside conjunctions (a `match x.partial_cmp(&last) { … }` whose arms were joined again):
+            # take the comparison of x with last_evaluation that the conditions are built from
+            for t0 in scan_terms:
+                for sub in subterms(t0):
+                    if sub[0] in ('sel', 'selv'):
+                        for atom in subterms(sub[1]):
+                            if isinstance(atom, tuple) and atom and atom[0] == 'fcmp' and dir_class(atom, x, L) in ('lt', 'le', 'gt', 'ge') and atom not in cands:
+                                cands.append(atom)
         if len(cands) != 1:
             rep.ob('dir', inst, False, 'found %d comparisons of x with last_evaluation' % len(cands), fn=inst, file=file, line=line,
                    msg='evaluate() has no single direction split on x vs last_evaluation: ' + term_str(sel_poly)[:200])
@@ -234,6 +243,13 @@ def check(cx):
         A_b = {C: (not fwd_when)}
         A_f.update(nonnan)
         A_b.update(nonnan)
+        if dc == 'ge':
+            # the other spellings of the same split (arms of a `match x.partial_cmp(&last)`): x and last_evaluation are not NaN here
+            for d_, fw in ((A_f, True), (A_b, False)):
+                for atom, val in ((('unord', x, L), False), (('unord', L, x), False),
+                                  (('fcmp', 'lt', x, L), not fw), (('fcmp', 'gt', L, x), not fw),
+                                  (('fcmp', 'ge', x, L), fw), (('fcmp', 'le', L, x), fw)):
+                    d_.setdefault(atom, val)
 
         # ---------------- both directions: the cursor moves by ONE search (however it is written: a loop closed by
         # SEARCH-LOOP, position/find/find_map/rposition/partition_point, in evaluate() itself or in a helper it calls)
@@ -272,10 +288,27 @@ def check(cx):
                 lo, hi = a_, it.iadd(a_, n_dom)
             return a_, desc, lo, hi, kvar, P_k
 
+        def ctx_simp(t_, asm):
+            """simp that also uses each select's own condition inside its arms (`if ¬F {a} else {if F {b} else {c}}` never reaches c)"""
+            t_ = simp(t_, asm)
+            if not isinstance(t_, tuple) or not t_:
+                return t_
+            if t_[0] in ('sel', 'selv') and len(t_) == 4:
+                c = t_[1]
+                pos, val = (c[1], False) if (isinstance(c, tuple) and c and c[0] == 'not') else (c, True)
+                asm_t = dict(asm)
+                asm_t[pos] = val
+                asm_e = dict(asm)
+                asm_e[pos] = not val
+                a_ = ctx_simp(t_[2], asm_t)
+                b_ = ctx_simp(t_[3], asm_e)
+                return a_ if a_ == b_ else (t_[0], c, a_, b_)
+            return tuple(ctx_simp(y, asm) if isinstance(y, tuple) else y for y in t_)
+
         def one_path(A, forward):
             probs = []
-            tstart = subst_term(simp(tail2.start, A), repl) if isinstance(tail2, SliceRef) else None
-            sp = subst_term(simp(sel_poly, A), repl)
+            tstart = subst_term(ctx_simp(tail2.start, A), repl) if isinstance(tail2, SliceRef) else None
+            sp = subst_term(ctx_simp(sel_poly, A), repl)
             if tstart is None:
                 return ['tail′ is not a slice view'], None
             mentioned = set(subterms(tstart)) | set(subterms(sp))
